@@ -148,21 +148,22 @@ def CandsPost (f : Filter) (chain : List Block) (chunk limit lo n : Nat) (acc : 
       ((limit = 0 ∨ sc < limit) → lo < tok.b ∨ (acc.length < chunk → X ≠ [] ∧ skip < tok.p))
   | .fail _ => False
 
-theorem scanCands_spec (f : Filter) (chain : List Block) (chunk limit : Nat) (c : Nat → Bool)
+theorem scanCands_spec (f : Filter) (chain : List Block) (floor chunk limit : Nat) (c : Nat → Bool)
     (n : Nat) : ∀ (lo : Nat) (acc : List Emitted) (skip sc : Nat),
+    floor ≤ lo →
     lo + n ≤ chain.length →
     (∀ b, lo ≤ b → b < lo + n → blkSel f chain b ≠ [] → c b = true) →
     (skip = 0 ∨ (1 ≤ n ∧ selFrom f chain lo skip ≠ [] ∧ (limit = 0 ∨ sc < limit))) →
     acc.length ≤ chunk →
     CandsPost f chain chunk limit lo n acc skip sc
-      (scanCands f chain chunk limit ((List.range' lo n).filter c) acc skip sc) := by
+      (scanCands f chain floor chunk limit ((List.range' lo n).filter c) acc skip sc) := by
   induction n with
   | zero =>
-    intro lo acc skip sc _ _ hskip hacc
+    intro lo acc skip sc _ _ _ hskip hacc
     have : skip = 0 := by rcases hskip with h | h; exact h; omega
     simp [scanCands, CandsPost, wantN, this, hacc]
   | succ n ih =>
-    intro lo acc skip sc hlen hnfn hskip hacc
+    intro lo acc skip sc hfl hlen hnfn hskip hacc
     rw [List.range'_succ]
     by_cases hc : c lo = true
     · rw [List.filter_cons_of_pos hc]
@@ -180,6 +181,8 @@ theorem scanCands_spec (f : Filter) (chain : List Block) (chunk limit : Nat) (c 
         · simp [hs0]
         · intro h; rcases h with h | h <;> omega
       · simp only [hlim, Bool.false_eq_true, if_false]
+        have hnf : ¬ lo < floor := by omega
+        simp only [hnf, if_false]
         have hlt : lo < chain.length := by omega
         have hget : chain[lo]? = some chain[lo] := List.getElem?_eq_getElem hlt
         simp only [hget]
@@ -211,10 +214,10 @@ theorem scanCands_spec (f : Filter) (chain : List Block) (chunk limit : Nat) (c 
               have hXe : X = selFrom f chain lo skip := by
                 rw [hsF, ← hsel, hf']; simp
               have hacc' : acc'.length ≤ chunk := by rw [hX]; simp; exact hcz hacc
-              have := ih (lo + 1) acc' 0 (if limit > 0 then sc + 1 else sc) (by omega)
+              have := ih (lo + 1) acc' 0 (if limit > 0 then sc + 1 else sc) (by omega) (by omega)
                 (fun b h1 h2 => hnfn b (by omega) (by omega)) (Or.inl rfl) hacc'
               revert this
-              cases scanCands f chain chunk limit (List.filter c (List.range' (lo + 1) n)) acc' 0 (if limit > 0 then sc + 1 else sc) with
+              cases scanCands f chain floor chunk limit (List.filter c (List.range' (lo + 1) n)) acc' 0 (if limit > 0 then sc + 1 else sc) with
               | cont a s c' =>
                 simp only [CandsPost]
                 rintro ⟨h1, h2, h3⟩
@@ -238,9 +241,9 @@ theorem scanCands_spec (f : Filter) (chain : List Block) (chunk limit : Nat) (c 
         · exact h
         · exact absurd hb0 (blkSel_ne_nil_of_selFrom f chain lo skip h)
       subst hs0
-      have := ih (lo + 1) acc 0 sc (by omega) (fun b h1 h2 => hnfn b (by omega) (by omega)) (Or.inl rfl) hacc
+      have := ih (lo + 1) acc 0 sc (by omega) (by omega) (fun b h1 h2 => hnfn b (by omega) (by omega)) (Or.inl rfl) hacc
       revert this
-      cases scanCands f chain chunk limit (List.filter c (List.range' (lo + 1) n)) acc 0 sc with
+      cases scanCands f chain floor chunk limit (List.filter c (List.range' (lo + 1) n)) acc 0 sc with
       | cont a s c' =>
         simp only [CandsPost]
         rintro ⟨h1, h2, h3⟩
@@ -290,5 +293,84 @@ theorem mem_put (m : WinMap) (k : Nat) (v : Agg) (x : Nat × Agg) (h : x ∈ m.p
 theorem mem_lruAdd (cap : Nat) (m : WinMap) (k : Nat) (v : Agg) (x : Nat × Agg) (h : x ∈ lruAdd cap m k v) :
     x = (k, v) ∨ x ∈ m := mem_put m k v x (List.mem_of_mem_take h)
 
+
+/-! ### Window alignment arithmetic -/
+
+/-- `x - x % W`: first block of the window containing `x`. -/
+def al (W x : Nat) : Nat := x - x % W
+
+theorem al_unique (W w x : Nat) (hw : w % W = 0) (h1 : w ≤ x) (h2 : x < w + W) : al W x = w := by
+  obtain ⟨r, rfl⟩ : ∃ r, x = w + r := ⟨x - w, by omega⟩
+  have hr : r < W := by omega
+  have : (w + r) % W = r := by
+    rw [Nat.add_mod, hw, Nat.zero_add, Nat.mod_mod, Nat.mod_eq_of_lt hr]
+  unfold al; rw [this]; omega
+
+theorem al_le (W x : Nat) : al W x ≤ x := Nat.sub_le _ _
+
+theorem al_add_mod (W x : Nat) : al W x + x % W = x := by
+  unfold al; have := Nat.mod_le x W; omega
+
+theorem al_mod (W x : Nat) : al W x % W = 0 := by
+  have h := Nat.div_add_mod x W
+  have : al W x = W * (x / W) := by unfold al; omega
+  rw [this]; exact Nat.mul_mod_right _ _
+
+theorem lt_al_add (W x : Nat) (hW : 1 ≤ W) : x < al W x + W := by
+  have := al_add_mod W x
+  have := Nat.mod_lt x (show W > 0 by omega)
+  omega
+
+theorem al_eq_self (W x : Nat) (h : x % W = 0) : al W x = x := by unfold al; omega
+
+theorem al_succ_same (W x : Nat) (h : x % W + 1 < W) : al W (x + 1) = al W x := by
+  apply al_unique W _ _ (al_mod W x)
+  · have := al_le W x; omega
+  · have := al_add_mod W x; omega
+
+theorem al_succ_roll (W x : Nat) (h : x % W + 1 = W) : al W (x + 1) = x + 1 := by
+  have h1 : (x + 1) % W = 0 := by
+    have := al_add_mod W x
+    have e : x + 1 = al W x + W := by omega
+    rw [e, Nat.add_mod_right]; exact al_mod W x
+  exact al_eq_self W _ h1
+
+theorem al_pred_same (W x : Nat) (hW : 1 ≤ W) (h : x % W ≠ 0) : al W (x - 1) = al W x := by
+  apply al_unique W _ _ (al_mod W x)
+  · have := al_add_mod W x; omega
+  · have := lt_al_add W x hW; omega
+
+theorem sub_mod_self (W x : Nat) (h : W ≤ x) : (x - W) % W = x % W := by
+  have h1 : (x - W + W) % W = (x - W) % W := Nat.add_mod_right _ _
+  have h2 : x - W + W = x := by omega
+  rw [← h1, h2]
+
+theorem ge_of_mod_zero (W x : Nat) (h0 : x % W = 0) (h1 : 1 ≤ x) : W ≤ x := by
+  rcases Nat.lt_or_ge x W with h | h
+  · rw [Nat.mod_eq_of_lt h] at h0; omega
+  · exact h
+
+theorem al_pred_cross (W x : Nat) (hW : 1 ≤ W) (h0 : x % W = 0) (h1 : 1 ≤ x) : al W (x - 1) = x - W := by
+  have hge := ge_of_mod_zero W x h0 h1
+  apply al_unique W
+  · rw [sub_mod_self W x hge]; exact h0
+  · omega
+  · omega
+
+/-- two aligned numbers that are less than `W` apart are equal -/
+theorem aligned_lt (W a b : Nat) (ha : a % W = 0) (hb : b % W = 0) (h : a < b) : a + W ≤ b := by
+  rcases Nat.lt_or_ge b (a + W) with h' | h'
+  · have := al_unique W a b ha (by omega) h'
+    rw [al_eq_self W b hb] at this; omega
+  · exact h'
+
+
+theorem al_eq_div_mul (W x : Nat) : al W x = x / W * W := by
+  have h := Nat.div_add_mod x W
+  unfold al; rw [Nat.mul_comm]; omega
+
+theorem al_mono (W a b : Nat) (h : a ≤ b) : al W a ≤ al W b := by
+  rw [al_eq_div_mul, al_eq_div_mul]
+  exact Nat.mul_le_mul_right _ (Nat.div_le_div_right h)
 
 end Juno.C09
